@@ -10,6 +10,7 @@ import (
 	"sort"
 	"strconv"
 	"strings"
+	"sync/atomic"
 )
 
 // ---------------------------------------------------------------------------------------
@@ -104,8 +105,18 @@ const MaxChoices = 2_000_000
 
 type BudgetExceeded struct{}
 
+// Heartbeat: harness code ticks this counter whenever it makes progress (every decision, every dump,
+// entry and exit of every guarded call into the library). The worker's watchdog reports non-termination
+// only when the counter stands still, i.e. when a single call into the library does not come back - never
+// because the harness itself has a lot of work to do in one run.
+var beats atomic.Uint64
+
+func Beat()         { beats.Add(1) }
+func Beats() uint64 { return beats.Load() }
+
 // Choose returns a value in [0,n). 0 is always the simplest alternative.
 func (t *T) Choose(n int) int {
+	beats.Add(1)
 	if n <= 1 {
 		return 0
 	}
